@@ -190,6 +190,9 @@ package rueidis
 // scriptbool(m, v): v is the truth value of a script's boolean answer m — Lua true arrives as integer 1 (RESP2) or
 // boolean true (RESP3), Lua false as a null reply
 //@ specfn scriptbool(m RedisMessage, v bool) bool = (m.typ == ':' ==> (v <==> m.intlen != 0)) && (m.typ == '#' ==> (v <==> m.intlen == 1)) && (m.typ == '_' ==> !v)
+// hcount(m): the counter value carried by one HMGET reply element as AsUint64 reads it (integer reply, or decimal text);
+// a missing field is a null reply and counts as 0 (used by the counting Bloom filter contracts, C36)
+//@ specfn macro hcount(m RedisMessage) uint64 = ite(m.typ == ':', uint64(m.intlen), ite(m.typ == '$' || m.typ == '+', first(strconv.ParseUint(m.string(), 10, 64)), 0))
 // failed(r): the result carries a transport error, an error reply or a null reply — exactly when Error() is non-nil
 //@ specfn failed(r RedisResult) bool = r.err != nil || r.val.typ == '_' || r.val.typ == '-' || r.val.typ == '!'
 //@ func RedisResult.Error
